@@ -847,7 +847,10 @@ with PolarsImpl.impl_store.impl_manager as impl:
         return x.log10()
 
     @impl(ops.clip)
-    def _clip(x, lower, upper):
+    def _clip(x, lower, upper, *, _sig):
+        if types.without_const(_sig[0]).is_int() and any(types.without_const(t).is_float() for t in _sig[1:]):
+            # polars would cast the bounds to the integer type of the column
+            x = x.cast(pl.Float64)
         return x.clip(lower, upper)
 
     @impl(ops.rand)
